@@ -15,7 +15,7 @@ import facts
 import q
 from c03 import push_count_paths
 from facts import walk, walk_with_path, peel, call_is, unblock, variant_of, strip_ref, subpat, pat_str, lit, or_pats
-from show import show
+from show import show, show_fn
 
 BUCKETS = ("exact", "starts_with", "ends_with", "contains", "regex", "rest")
 
@@ -188,6 +188,19 @@ def run(rep):
         if f is None:
             rep.lost("T-COUNT", "T-COUNT/anchor/" + fname, fname)
             continue
+        params = [p["pat"]["id"] for p in f.thir["params"] if p.get("pat")]
+        thr_id = params[3] if len(params) > 3 else None
+        # counters: variables incremented by one inside `for _ in set.matches(x).iter()`
+        counters = set()
+        cnt_loops = 0
+        for n in walk(f.body):
+            if n.get("k") == "For" and any(call_is(x, "RegexSet::matches") for x in walk(n["iter"])):
+                b = facts.only(n["body"])
+                if b.get("k") == "AssignOp" and b["op"] == "AddAssign" and lit(b["rhs"]) == ("i", 1) and q.var_id(b["lhs"]) is not None:
+                    counters.add(q.var_id(b["lhs"]))
+                    cnt_loops += 1
+        aho_vars = {s["pat"]["id"] for x in walk(f.body) if x.get("k") == "Block" for s in x["stmts"] if s["k"] == "Let" and s["pat"].get("k") == "Bind" and s.get("init") and call_is(peel(s["init"]), "solver::slow_aho")}
+        rep.check(cnt_loops == 7, "T-COUNT", "T-COUNT/%s/regexset-counter" % fname.split("::")[-1], f.sp, "the regex-set count is one per matching pattern (seven count loops)", str(cnt_loops))
         nc = 0
         for n, path in walk_with_path(f.body):
             if n.get("k") != "If":
@@ -195,30 +208,42 @@ def run(rep):
             c = peel(n["cond"])
             if c.get("k") != "Binary":
                 continue
-            l, r = show(c["lhs"]), show(c["rhs"])
-            is_aho = l.startswith("solver::slow_aho(a, Deref::deref(m), ")
-            is_cnt = l in ("hits", "c")
-            if not (is_aho or is_cnt):
+            L, R = peel(c["lhs"]), peel(c["rhs"])
+            batch = None
+            for e in q.context(path, n):
+                if e[0] == "if" and e[2] and peel(e[1]).get("k") == "LetCond":
+                    ps = pat_str(peel(e[1])["pat"])
+                    if "Search::AhoCorasick(" in ps:
+                        batch = ("aho", peel(e[1])["pat"])
+                    elif "Search::RegexSet(" in ps:
+                        batch = ("regexset", peel(e[1])["pat"])
+            if batch is None:
                 continue
-            in_regex = any(e[0] == "if" and e[2] and peel(e[1]).get("k") == "LetCond" and "Search::RegexSet" in pat_str(peel(e[1])["pat"]) for e in q.context(path, n))
-            in_aho = any(e[0] == "if" and e[2] and peel(e[1]).get("k") == "LetCond" and "Search::AhoCorasick" in pat_str(peel(e[1])["pat"]) for e in q.context(path, n))
-            if not (in_regex or in_aho):
+            srch = strip_ref(subpat(batch[1], 0))
+            is_hits = ((call_is(L, "solver::slow_aho") or (L.get("k") == "Var" and L["id"] in aho_vars)) and batch[0] == "aho") or (L.get("k") == "Var" and L["id"] in counters and batch[0] == "regexset")
+            if not is_hits:
                 continue
             nc += 1
-            then = show(n["then"])
-            key = "T-COUNT/%s/%s#%d" % (fname.split("::")[-1], "aho" if in_aho else "regexset", nc)
+            key = "T-COUNT/%s/%s#%d" % (fname.split("::")[-1], batch[0], nc)
+            then = unblock(n["then"])
             if kind == "all":
-                total = "(<T, A>::len(m) as u64)" if in_aho else "<impl [T]>::len(RegexSet::patterns(s))"
-                ok = r == total and ((c["op"] == "Ne" and then == "return SolverResult::False") or (c["op"] == "Eq" and then == "{found = true; break}"))
-                rep.check(ok, "T-COUNT", key, n["sp"], "all(): the value passes iff the number of matched members equals the number of members", "%s %s %s => %s" % (l[:40], c["op"], r, then[:40]))
+                if batch[0] == "aho":
+                    mid = strip_ref(subpat(srch, 1)).get("id")
+                    oktot = R.get("k") == "Cast" and R["ty"] == "u64" and call_is(peel(R["arg"]), "::len") and q.var_id(peel(R["arg"])["args"][0]) == mid
+                else:
+                    sid = strip_ref(subpat(srch, 0)).get("id")
+                    oktot = call_is(R, "::len") and call_is(peel(R["args"][0]), "RegexSet::patterns") and q.var_id(peel(R["args"][0])["args"][0]) == sid
+                if c["op"] == "Ne":
+                    okact = q.returns_sr(n["then"], "False")
+                elif c["op"] == "Eq":
+                    okact = then.get("k") == "Block" and len(then["stmts"]) == 2 and peel(then["stmts"][0]["e"]).get("k") == "Assign" and lit(peel(then["stmts"][0]["e"])["rhs"]) == ("bool", True) and peel(then["stmts"][1]["e"]).get("k") == "Break"
+                else:
+                    okact = False
+                rep.check(oktot and okact and not n.get("else"), "T-COUNT", key, n["sp"], "all(): the value passes iff the number of matched members equals the number of members", "%s %s %s => %s" % (show(L)[:40], c["op"], show(R), show(n["then"])[:40]))
             else:
-                ok = r == "count" and c["op"] == "Ge" and then == "return SolverResult::True"
-                rep.check(ok, "T-COUNT", key, n["sp"], "of(n): true as soon as the number of matched members reaches the threshold", "%s %s %s => %s" % (l[:40], c["op"], r, then[:40]))
+                ok = q.var_id(R) == thr_id and thr_id is not None and c["op"] == "Ge" and q.returns_sr(n["then"], "True") and not n.get("else")
+                rep.check(ok, "T-COUNT", key, n["sp"], "of(n): true as soon as the number of matched members reaches the threshold", "%s %s %s => %s" % (show(L)[:40], c["op"], show(R), show(n["then"])[:40]))
         rep.check(nc == 14, "T-COUNT", "T-COUNT/%s/sites" % fname.split("::")[-1], f.sp, "fourteen count comparisons (2 matcher kinds x (5 scalar kinds + 2 array forms))", str(nc))
-        # the regex-set counters count matches of the set on the value
-        cnt = [n for n in walk(f.body) if n.get("k") == "For" and "RegexSet::matches(s, " in show(n["iter"])]
-        okc = len(cnt) == 7 and all(re.fullmatch(r"(hits|c) AddAssign 1", show(x["body"])) for x in cnt)
-        rep.check(okc, "T-COUNT", "T-COUNT/%s/regexset-counter" % fname.split("::")[-1], f.sp, "the regex-set count is one per matching pattern", str(len(cnt)))
     # match_of(count == 0) is the negation of the member
     mo = F.fn("solver::match_of")
     if mo is not None:
